@@ -369,9 +369,11 @@ var $select = comms => {
                     comm[0].$recvQueue.push(queueEntry);
                     break;
                 case 2: /* send */
-                    var queueEntry = () => {
-                        if (comm[0].$closed) {
-                            $throwRuntimeError("send on closed channel");
+                    var queueEntry = closed => {
+                        if (closed) {
+                            /* The channel was closed while this select was blocked: like a blocked
+                               $send, the selecting goroutine panics when it resumes (not the closer). */
+                            f.$blk = () => { $throwRuntimeError("send on closed channel"); };
                         }
                         f.selection = [i];
                         removeFromQueues();
